@@ -59,7 +59,7 @@ func (s *Server) Compile(tc Toolchain, dir string, o CompileOpts) *CompileResult
 	b, _ := json.Marshal(req)
 	to := o.Timeout
 	if to == 0 {
-		to = 30 * time.Second
+		to = defaultCompileTimeout()
 	}
 	type answer struct {
 		line string
